@@ -16,6 +16,11 @@ pub(crate) mod bloom;
 pub(crate) mod token_cache;
 pub(crate) mod congestion;
 pub mod constants;
+pub(crate) mod endpoint_gate;
+pub(crate) mod token_decision;
+pub(crate) mod retry;
+pub(crate) mod cid;
+pub(crate) mod misc_root;
 
 /// One operation = opcode followed by integer arguments.
 pub type Ops = [Vec<i128>];
@@ -23,6 +28,21 @@ pub type Ops = [Vec<i128>];
 pub type Outs = Vec<Vec<i128>>;
 
 pub fn run(comp: &str, ops: &Ops) -> Option<Outs> {
+    if let Some(o) = misc_root::run(comp, ops) {
+        return Some(o);
+    }
+    if let Some(o) = cid::run(comp, ops) {
+        return Some(o);
+    }
+    if let Some(o) = retry::run(comp, ops) {
+        return Some(o);
+    }
+    if let Some(o) = token_decision::run(comp, ops) {
+        return Some(o);
+    }
+    if let Some(o) = endpoint_gate::run(comp, ops) {
+        return Some(o);
+    }
     if let Some(o) = codec::run(comp, ops) {
         return Some(o);
     }
